@@ -152,7 +152,7 @@ class Net:
     def _is_ack(self, data):
         if self.dll == 'j1939-21':
             return len(data) == 8 and data[0] == 19
-        return len(data) >= 12 and (data[0] & 0xF) == 3
+        return len(data) == 12 and (data[0] & 0xF) == 3 and data[7] == 0xFF and data[8] == 0xFF
 
     # ---- other verdict helpers
     def job_problems(self):
@@ -250,11 +250,16 @@ class Driver:
             if st.name in sc.get('silent', {}):
                 st.silent_from = sc['silent'][st.name]
         self.pending = {}
+        self.on = []
         for i, m in enumerate(sc['msgs']):
             if m.get('after') is not None:
                 self.pending.setdefault(m['after'], []).append(i)
+            if m.get('on') is not None:
+                self.on.append([i, m['on'], 0])
         if self.pending:
             net.bus.taps.append(self._tap)
+        if self.on:
+            net.rec.hooks.append(self._hook)
 
     def _tap(self, fr):
         lst = self.pending.pop(fr.idx + 1, None)    # 'after': n = once n frames are on the bus
@@ -262,9 +267,67 @@ class Driver:
             w = self.net.w
             w.at(w.now + 1e-5, lambda: [self._submit(i) for i in lst])
 
+    def _hook(self, tag, priority, pgn, sa, data):
+        """'on': {'tag': listener, 'kind': 'ack' | 'data', 'nth': k}: the application submits the message from inside
+        the k-th matching subscriber callback (before that callback returns)"""
+        for ent in self.on:
+            i, on, seen = ent
+            if on['tag'] != tag or seen < 0:
+                continue
+            if (on['kind'] == 'ack') != self.net._is_ack(data):
+                continue
+            ent[2] = seen + 1
+            if ent[2] == on.get('nth', 1):
+                ent[2] = -1
+                self._submit(i)
+
+    def busy_reference(self, m):
+        """J1939-21: is an earlier transfer on this (SA, DA) pair still in progress, judged from the bus?
+        'busy' / 'grace' (ended < 20 ms ago: the job thread may not have removed it yet) / 'free'"""
+        net = self.net
+        src = m['src']
+        dst = m['dst'] if m['kind'] == 'p2p' else 255
+        now = net.w.now
+        open_t, closed_t, left = None, None, 0
+        for fr in net.bus.log:
+            if fr.pf == 0xEC and len(fr.data) == 8:
+                c = fr.data[0]
+                if dst != 255:
+                    if c == 16 and fr.sa == src and fr.ps == dst:
+                        open_t, closed_t = fr.t, None
+                    elif c in (19, 255) and fr.sa == dst and fr.ps == src and open_t is not None:
+                        open_t, closed_t = None, fr.t
+                    elif c == 255 and fr.sa == src and fr.ps == dst and open_t is not None:
+                        open_t, closed_t = None, fr.t
+                elif c == 32 and fr.sa == src and fr.ps == 255:
+                    open_t, closed_t, left = fr.t, None, fr.data[3]
+            elif fr.pf == 0xEB and dst == 255 and fr.sa == src and fr.ps == 255 and open_t is not None:
+                left -= 1
+                if left <= 0:
+                    open_t, closed_t = None, fr.t
+        if open_t is not None:
+            return 'busy'
+        if closed_t is not None and now - closed_t < 0.02:
+            return 'grace'
+        return 'free'
+
     def _submit(self, i):
         m = self.sc['msgs'][i]
         net = self.net
+        if m.get('may_refuse'):
+            limit = TP_LIMIT[net.dll]
+            if net.dll == 'j1939-21':
+                ref = self.busy_reference(m) if m['size'] > limit else 'free'
+            else:
+                e = self.capacity_expectation(m)
+                ref = 'free' if e is True else 'busy' if e is False else 'grace'
+            f0 = len(net.bus.log)
+            r = net.submit(m, self.seed)
+            if r is False and ref == 'free':
+                self.probs.append("send_pgn refused a message although no earlier transfer is in progress on that pair / sessions are free")
+            if r is False and len(net.bus.log) != f0:
+                self.probs.append("refused send_pgn emitted %d frame(s)" % (len(net.bus.log) - f0))
+            return
         if m.get('probe'):
             exp = self.capacity_expectation(m)
             r = net.submit(m, self.seed)
@@ -337,10 +400,10 @@ class Driver:
         net = self.net
         order = sc.get('order') or list(range(len(sc['msgs'])))
         for i in order:
-            if sc['msgs'][i].get('after') is None:
+            if sc['msgs'][i].get('after') is None and sc['msgs'][i].get('on') is None:
                 self._submit(i)
         net.w.run_for(self.horizon())
-        if self.pending:
+        if self.pending and not sc.get('late_ok'):
             self.probs.append("HARNESS: %d submissions never triggered" % len(self.pending))
         return self
 
@@ -349,7 +412,7 @@ class Driver:
         probs = list(self.probs)
         limit = TP_LIMIT[net.dll]
         for (m, r, _b, _a, _d) in net.sent:
-            if not m.get('probe') and r is not True and m['size'] > limit:
+            if not m.get('probe') and not m.get('may_refuse') and r is not True and m['size'] > limit:
                 probs.append("send_pgn returned %r for a message within capacity" % (r,))
         probs += net.judge_deliveries()
         probs += net.job_problems()
